@@ -170,6 +170,8 @@ pub struct Model {
     pub method: String,
     pub path: String,
     pub query_pairs: Vec<(String, String)>,
+    /// the URL was given with a `?` (possibly followed by nothing): the target carries one too
+    pub query_present: bool,
     /// caller-visible header operations applied in order
     pub headers: BTreeMap<String, Vec<Vec<u8>>>,
     pub allow_compression: bool,
@@ -358,6 +360,9 @@ pub fn judge_request(ctx: &mut Ctx, written: &[u8], m: &Model, what: &str) -> Op
         }
         Err(e) => ctx.violation("path-undecodable", descr(&e)),
     }
+    if m.query_present && p.query().is_none() {
+        ctx.violation("empty-query-dropped", descr("the URL was given with a present-but-empty query (`?`), the request target has no `?`"));
+    }
     match request::form_decode(p.query().unwrap_or(b"")) {
         Ok(pairs) => {
             let want: Vec<(Vec<u8>, Vec<u8>)> = m.query_pairs.iter().map(|(k, v)| (k.clone().into_bytes(), v.clone().into_bytes())).collect();
@@ -506,7 +511,7 @@ pub fn build_common(rng: &mut Rng, ctx: &mut Ctx, host: &str) -> (RequestBuilder
     }
     // (a build of the library without gzip/deflate support never announces Accept-Encoding of its own;
     //  what the caller supplies goes out as given)
-    let mut m = Model { method: method.to_owned(), path: intended_path, allow_compression: cfg!(feature = "compress"), body_kind: "none", ..Default::default() };
+    let mut m = Model { method: method.to_owned(), path: intended_path, allow_compression: cfg!(feature = "decodes"), body_kind: "none", ..Default::default() };
     let mut url = format!("http://{host}{url_path}");
     let nbase = rng.range(0, 2);
     for i in 0..nbase {
@@ -520,6 +525,12 @@ pub fn build_common(rng: &mut Rng, ctx: &mut Ctx, host: &str) -> (RequestBuilder
             // "=" alone decodes to an empty pair, which the model keeps
         }
         m.query_pairs.push((k, v));
+    }
+    // a present-but-empty query is part of the target (`/p?` is not `/p`)
+    if nbase == 0 && rng.chance(1, 5) {
+        url.push('?');
+        m.query_present = true;
+        ctx.count("urls_with_an_empty_query", 1);
     }
     // a fragment is never part of the request target, whatever is appended to the query later
     if rng.chance(1, 4) {
@@ -619,7 +630,7 @@ pub fn build_common(rng: &mut Rng, ctx: &mut Ctx, host: &str) -> (RequestBuilder
         }
         _ => {}
     }
-    #[cfg(feature = "compress")]
+    #[cfg(feature = "decodes")]
     if rng.chance(1, 6) {
         rb = rb.allow_compression(false);
         m.allow_compression = false;
@@ -672,7 +683,14 @@ fn run_program(ctx: &mut Ctx, rng: &mut Rng, index: u64) {
         0 => {
             m.body_kind = "none";
             ctx.count("body_none", 1);
-            send_and_judge(ctx, rb, &m, faults, "no body");
+            if rng.chance(1, 3) {
+                // an earlier body taken away again
+                m.default("content-type", b"application/octet-stream");
+                ctx.count("bodies_replacing_an_earlier_body", 1);
+                send_and_judge(ctx, rb.bytes(vec![1u8, 2, 3, 4, 5]).body(attohttpc::body::Empty), &m, faults, "no body (an earlier bytes body replaced by body::Empty)");
+            } else {
+                send_and_judge(ctx, rb, &m, faults, "no body");
+            }
         }
         1 => {
             let s = random_string(rng, 40, &[]);
@@ -826,7 +844,22 @@ fn run_custom(ctx: &mut Ctx, rng: &mut Rng, _index: u64) {
     }
     ctx.max("max_custom_write", prog.ops.iter().map(|o| match o { Op::Write(d) | Op::WriteAll(d) => d.len(), _ => 0 }).max().unwrap_or(0) as u64);
     let what = format!("custom body {:?} buffered={} ops={:?}", prog.kind, prog.buffered, prog.ops.iter().map(|o| match o { Op::Write(d) => format!("write({})", d.len()), Op::WriteAll(d) => format!("write_all({})", d.len()), Op::Zero => "write(0 bytes)".into(), Op::Flush => "flush".into(), Op::Vectored(d) => format!("vectored{:?}", d.iter().map(|x| x.len()).collect::<Vec<_>>()) }).collect::<Vec<_>>());
-    send_and_judge(ctx, rb.body(prog), &m, faults, &what);
+    // a third of the custom bodies REPLACE a body that an earlier helper call had attached: the
+    // framing fields describe the body that is sent, nothing of the earlier one stays behind
+    // (the Content-Type default that the helper added does: it is a header the caller asked for)
+    match rng.below(6) {
+        0 => {
+            m.default("content-type", b"text/plain; charset=utf-8");
+            ctx.count("bodies_replacing_an_earlier_body", 1);
+            send_and_judge(ctx, rb.text("an earlier body, replaced").body(prog), &m, faults, &format!("{what} (replacing an earlier text body)"));
+        }
+        1 => {
+            m.default("content-type", b"application/octet-stream");
+            ctx.count("bodies_replacing_an_earlier_body", 1);
+            send_and_judge(ctx, rb.bytes(vec![7u8; 300]).body(prog), &m, faults, &format!("{what} (replacing an earlier bytes body)"));
+        }
+        _ => send_and_judge(ctx, rb.body(prog), &m, faults, &what),
+    }
 }
 
 /// a send that fails while the request is being written (transport error at byte k, or the
